@@ -350,6 +350,13 @@ fn generate(rng: &mut Rng, index: u64) -> C08Sc {
             }
         }
     }
+    // an earlier connection of the same process that ended abruptly with output still queued
+    if index % 7 == 6 {
+        let mut base = sc.clone();
+        base.client.cuts.clear();
+        base.wplan.clear();
+        sc.prelude = vec![abrupt_prelude(rng, &base)];
+    }
     C08Sc { sc }
 }
 
@@ -474,10 +481,30 @@ impl Check for C08 {
         if !matches!(sc.client.intent, 1..=3) || sc.client.extras.iter().any(|e| !e.after_ack || !matches!(e.id, 0x01 | 0x02 | 0x04) || (e.id == 0x04 && !matches!(e.body, Body::KeepAlive { .. }))) {
             return RunReport::default();
         }
-        let refo = run_conn(&reference_of(sc));
-        let var = run_conn(sc);
+        // with an earlier connection that ended abruptly: the undisturbed execution is taken before and after it
+        let fresh = if sc.prelude.is_empty() {
+            None
+        } else {
+            let mut plain = reference_of(sc);
+            plain.prelude.clear();
+            Some(run_conn(&plain))
+        };
+        let refo = crate::conn::run_conn_after_prelude(&reference_of(sc));
+        let var = crate::conn::run_conn_after_prelude(sc);
         let mut rep = base_report(&var);
         rep.runs = 2;
+        if let Some(fresh) = &fresh {
+            rep.runs += 1 + sc.prelude.len() as u64 * 2;
+            *rep.faults.entry("earlier_connection_ended_abruptly".into()).or_insert(0) += 1;
+            // what the client is sent does not depend on what an earlier connection left behind
+            let kinds = |o: &ConnOutcome| o.view.packets.iter().filter(|p| p.kind != "KeepAlive").map(|p| (p.kind.clone(), p.len)).collect::<Vec<_>>();
+            if fresh.view.undecodable.is_none() && fresh.result != "Hung" && (refo.view.undecodable.is_some() || kinds(fresh) != kinds(&refo) || fresh.result != refo.result) {
+                rep.violate(
+                    "frames_arrive_complete",
+                    format!("after an earlier connection that ended with a broken transport, the same undisturbed client is sent {:?} ({} {:?}) instead of {:?} ({})", refo.view.kinds(), refo.result, refo.view.undecodable, fresh.view.kinds(), fresh.result),
+                );
+            }
+        }
         rep.sim_ns += refo.end_ns;
         rep.full_hash = rep.full_hash.rotate_left(13) ^ refo.full_hash();
         rep.nontrivial = ["c2s_gated_segment", "c2s_frame_split", "c2s_frames_coalesced_in_one_read", "write_partial_accept", "write_pending_delay", "write_pending_event", "write_spurious_pending", "read_spurious_pending"]
